@@ -545,6 +545,26 @@ func (ex *Exec) freshRef(st *State, hint string) T {
 
 // assumeTypeInv: refs loaded from memory / parameters are allocated or nil.
 func (ex *Exec) assumeTypeInv(st *State, v T, t types.Type) {
+	ex.assumeTypeInvDepth(st, v, t, 0)
+}
+
+func (ex *Exec) assumeTypeInvDepth(st *State, v T, t types.Type, depth int) {
+	if t == nil {
+		return
+	}
+	// struct values: the invariants of their fields (slice lengths, integer ranges), a few levels deep
+	if info, ok := structInfoGet(v.sort); ok && depth < 3 && !isTimeTime(t) {
+		if stt, ok := t.Underlying().(*types.Struct); ok && stt.NumFields() == len(info.fields) {
+			for i := range info.fields {
+				ft := stt.Field(i).Type()
+				switch ft.Underlying().(type) {
+				case *types.Slice, *types.Struct, *types.Array:
+					ex.assumeTypeInvDepth(st, mk(info.fsorts[i], info.fields[i], v), ft, depth+1)
+				}
+			}
+		}
+		return
+	}
 	if v.sort == SInt && isRefType(t) {
 		ex.vc.assume(st.guard, And(Ge(v, IntLit(0)), Le(v, ex.ghostGet(st, "alloc"))))
 		return
